@@ -38,7 +38,7 @@ def gen_case(rng, tier, idx):
     if regime == "stress":
         # every season is likely to end in early senescence / crop death: the previous season must leave
         # stress counters and timers behind for a missing reset to show
-        prof.update({"archetypes": ["semiarid", "warm"], "event_kinds": ["drought", "drought", "heat_wave", "cold_snap"], "events_per_year": 4.0,
+        prof.update({"archetypes": ["semiarid", "warm"], "event_kinds": ["drought", "dry_then_wet", "heat_wave", "cold_snap"], "events_per_year": 4.0,
                      "irr_methods": [0, 0, 1, 2], "gw": 0.0, "sat_start_p": 0.0, "bunds": 0.0, "station_p": 0.0})
     elif regime == "wet":
         # seasons start and end waterlogged: saturated initial content, shallow table, storms, bunds
